@@ -748,9 +748,22 @@ def rule_attempt(ctx):
         for a in c.args:
             if is_self_attr(a) and a.attr in chans:
                 used.add(a.attr)
-    for n in ast.walk(hs):
-        if is_self_attr(n) and n.attr in chans:
-            used.add(n.attr)
+    # the stream callback and what it dispatches to: methods it calls on self, and methods named in a class-level table it reads
+    hs_fns, todo = [], [hs]
+    while todo:
+        f_ = todo.pop()
+        if f_ in hs_fns:
+            continue
+        hs_fns.append(f_)
+        for n in ast.walk(f_):
+            if is_self_attr(n) and n.attr in cls.methods:
+                todo.append(cls.methods[n.attr])
+            elif is_self_attr(n) and n.attr in cls.consts:
+                todo += [cls.methods[x.id] for x in ast.walk(cls.consts[n.attr]) if isinstance(x, ast.Name) and x.id in cls.methods]
+    for f_ in hs_fns:
+        for n in ast.walk(f_):
+            if is_self_attr(n) and n.attr in chans:
+                used.add(n.attr)
     fresh = {t.attr for n in ast.walk(auth) if isinstance(n, ast.Assign) for t in n.targets if is_self_attr(t) and t.attr in chans and isinstance(n.value, ast.Call)}
     cancels = [c for c in ast.walk(disc) if isinstance(c, ast.Call) and "_handshake_worker" in unparse(c.func)]
     drains = {t.attr for n in ast.walk(disc) if isinstance(n, ast.Assign) for t in n.targets if is_self_attr(t) and t.attr in chans}
